@@ -445,6 +445,24 @@ def parse_cbmc_json(path: Path):
     return res
 
 
+def _flatten_value_bytes(v):
+    """Bytes of an array-valued trace value (CBMC json: {"name": "array", "elements": [{"value": ..}]})."""
+    if not isinstance(v, dict):
+        return None
+    if v.get("binary") is not None and v.get("width"):
+        w = int(v["width"])
+        return int(v["binary"], 2).to_bytes(max(1, (w + 7) // 8), "little")
+    if v.get("name") == "array" and isinstance(v.get("elements"), list):
+        out = b""
+        for el in sorted(v["elements"], key=lambda e: int(e.get("index", 0))):
+            b = _flatten_value_bytes(el.get("value"))
+            if b is None:
+                return None
+            out += b
+        return out
+    return None
+
+
 WAKER_SITES = {
     "core::task::Waker::wake": "wake",
     "core::task::Waker::wake_by_ref": "wake_by_ref",
@@ -494,7 +512,47 @@ def restrict_waker_calls(out: Path, wd: Path) -> int:
     return len(restr) if rc == 0 else 0
 
 
-def run_harness(meta, spec: H, profile: str, workdir: Path, tier: str, noslice: bool = False):
+class HeavyBudget:
+    """Harnesses that declare more than the default memory limit share a budget, so that the sum of
+    their limits stays below the machine's memory (no swap); ordinary instances are not counted
+    (their real use is far below their limit)."""
+
+    def __init__(self, total_gb):
+        self.total = total_gb
+        self.used = 0
+        self.cv = threading.Condition()
+
+    def acquire(self, gb):
+        gb = min(gb, self.total)
+        with self.cv:
+            while self.used + gb > self.total:
+                self.cv.wait()
+            self.used += gb
+        return gb
+
+    def release(self, gb):
+        with self.cv:
+            self.used -= gb
+            self.cv.notify_all()
+
+
+HEAVY = HeavyBudget(int(os.environ.get("VERIF_HEAVY_GB", "40")))
+
+
+def run_harness(meta, spec: H, profile: str, workdir: Path, tier: str, noslice: bool = False, only_props=()):
+    need = spec.mem_gb or 0
+    if noslice:  # the unsliced formula of the full-trace re-run is larger
+        need = max(need, 24)
+    if need <= 8:  # only instances DECLARED heavy are budgeted
+        return _run_harness(meta, spec, profile, workdir, tier, noslice, only_props)
+    got = HEAVY.acquire(need)
+    try:
+        return _run_harness(meta, spec, profile, workdir, tier, noslice, only_props)
+    finally:
+        HEAVY.release(got)
+
+
+def _run_harness(meta, spec: H, profile: str, workdir: Path, tier: str, noslice: bool = False, only_props=()):
     """goto-cc / goto-instrument / cbmc for one harness, as Kani 0.68 does."""
     name = meta["pretty_name"].split("::")[-1]
     wd = workdir / (f"{name}.{profile}" + (".full" if noslice else ""))
@@ -504,6 +562,9 @@ def run_harness(meta, spec: H, profile: str, workdir: Path, tier: str, noslice: 
     tmo = spec.timeout or (600 if tier == "quick" else 2400)
     if os.environ.get("VERIF_TIMEOUT"):
         tmo = int(os.environ["VERIF_TIMEOUT"])
+    if noslice:
+        mem = max(mem, 24)
+        tmo = max(tmo, 1200)
     r = dict(name=name, pretty=meta["pretty_name"], profile=profile, verdict=None, wall_s=0.0, note=spec.note)
     t0 = time.time()
     steps = [
@@ -546,6 +607,9 @@ def run_harness(meta, spec: H, profile: str, workdir: Path, tier: str, noslice: 
     cmd += ["--max-field-sensitivity-array-size", fs]
     # `--slice-formula` drops the nondet choices outside the cone of influence from the
     # counterexample trace; the replay run (noslice) keeps them all
+    # the re-run asks only for the failing properties (one solver call each)
+    for pid_ in only_props:
+        cmd += ["--property", pid_]
     cmd += spec.extra_cbmc + ([] if noslice else ["--slice-formula"]) + [str(out), "--verbosity", "8", "--json-ui"]
     jpath = wd / "cbmc.json"
     rc, secs, rss, to = run_proc(cmd, tmo, mem, stdout_path=jpath)
@@ -564,7 +628,8 @@ def run_harness(meta, spec: H, profile: str, workdir: Path, tier: str, noslice: 
     elif rc not in (0, 10):
         r.update(verdict="ERROR", reason=f"cbmc rc={rc}")
     try:
-        out.unlink()
+        if not os.environ.get("VERIF_KEEP_GOTO"):
+            out.unlink()
     except OSError:
         pass
     if not os.environ.get("VERIF_KEEP_JSON"):
@@ -688,10 +753,13 @@ def concrete_playback(prop, kind, profile, harness, pretty, sc: Scratch, builds,
         tv = v.get("trace_vals") or []
         rows = []
         for x in tv:
-            w = int(x["width"])
-            nbytes = max(1, (w + 7) // 8)
-            val = int(x["binary"], 2)
-            by = val.to_bytes(nbytes, "little")
+            if x.get("bytes_hex") is not None:
+                by = bytes.fromhex(x["bytes_hex"])
+            else:
+                w = int(x["width"])
+                nbytes = max(1, (w + 7) // 8)
+                val = int(x["binary"], 2)
+                by = val.to_bytes(nbytes, "little")
             rows.append("        std::vec![" + ", ".join(str(c) for c in by) + "],")
         tname = f"kani_concrete_playback_{harness}_{i}"
         tests.append(f"/// Test generated for harness `{pretty}` from the CBMC trace\n/// Check for `assertion`: {v['desc']!r}\n#[test]\nfn {tname}() {{\n    let concrete_vals: std::vec::Vec<std::vec::Vec<u8>> = std::vec![\n" + "\n".join(rows) + f"\n    ];\n    kani::concrete_playback_run(concrete_vals, {harness});\n}}\n")
@@ -870,7 +938,7 @@ def run_property(pid: str, tier: str, jobs: int, only: str | None, keep: bool, r
                 # full counterexample (no formula slicing) for the playback values
                 try:
                     m_, s_, p_ = r["_rerun"]
-                    full = run_harness(m_, s_, p_, sc.root / "work", tier, noslice=True)
+                    full = run_harness(m_, s_, p_, sc.root / "work", tier, noslice=True, only_props=[v["id"] for v in new_viol[:3] if v.get("id")])
                     classify(full, s_)
                     fv = {v["desc"]: v for v in full.get("violations", [])}
                     for v in new_viol:
